@@ -161,7 +161,7 @@ def run(ctx, only=None):
                    samples=[what(o, None) for o in rig.pick_samples([o for o in obs if len(o["orig"]["nodes"]) > 3], 3, ctx.seed)],
                    records_failing_property=len(viol), records_masked_by_deeper_panic=len(by.get("masked", [])),
                    diagnostics=list(dsum.values()))
-    if len(not_cov) > 2:
+    if only is None and len(not_cov) > 2:
         raise Infra("corpus does not cover node kinds: %s" % not_cov)
     # reproduction guard: representatives again in a fresh process
     bads = []
